@@ -45,6 +45,18 @@ impl<P: Protocol> MockCloud<P> {
         self.handle_device_event(buffer)
     }
 
+    /// a key-holding peer seals an arbitrary plaintext for `addr` and puts it on the wire
+    pub fn v_seal_raw(&mut self, addr: SocketAddr, plain: &[u8]) -> bool {
+        let data = match self.peers.get_mut(&addr) {
+            Some(peer) => crate::crypto::verif_hooks_common::seal_raw(&mut peer.crypto, plain),
+            None => None,
+        };
+        match data {
+            Some(d) => self.socket.send(&d, addr).is_ok(),
+            None => false,
+        }
+    }
+
     pub fn v_housekeep(&mut self) -> Result<(), Error> {
         self.housekeep()
     }
